@@ -442,6 +442,8 @@ static int Convert_mus2midi(uint8_t *in, uint32_t insize,
             delta_time = 0;
             do {
                 MUS_NEED(1);
+                if (delta_time >= (1 << 21)) /* more than 28 bits: neither int32_t nor the delta time writer hold it */
+                    goto _end;
                 delta_time = (int32_t)((delta_time * 128 + (*cur & 127)) * (140.0 / (double)frequency));
             } while ((*cur++ & 128));
         } else {
